@@ -262,10 +262,16 @@ const MSG_EPS: [(&str, u8, u8); 19] = [
     ("n2/handshake-n2n", 2, 0), ("n2/chainsync-header", 2, 1), ("n2/blockfetch", 2, 2), ("n2/txsubmission", 2, 3), ("n2/keepalive", 2, 4),
     ("n2/peersharing", 2, 5), ("n2/leiosnotify", 2, 9), ("n2/leiosfetch", 2, 10),
 ];
+static mut PANIC_RESERVE: usize = 8;
+const MODELLED: [&str; 8] = ["Address::from_bytes", "Pointer::parse", "MultiEraBlock::decode", "MultiEraTx::decode", "conway::Tx", "babbage::Tx", "alonzo::Tx", "byron::TxPayload"];
 const VARIANT_EPS: [&str; 6] = ["n1/localstate/DRep", "n1/localstate/CommitteeAuthorization", "n1/localstate/FuturePParams", "n1/localstate/GovAction", "n1/localstate/HotCredAuthStatus", "n1/localstate/NextEpochChange"];
 const CHAN_EPS: [(&str, u8); 9] = [("n2/AnyMessage/ch0", 0), ("n2/AnyMessage/ch2", 1), ("n2/AnyMessage/ch3", 2), ("n2/AnyMessage/ch4", 3), ("n2/AnyMessage/ch8", 4), ("n2/AnyMessage/ch10", 5), ("n2/AnyMessage/ch18", 9), ("n2/AnyMessage/ch19", 10), ("n2/AnyMessage/ch77", 99)];
 
 fn emit_model_cases(rng: &mut Rng, b: &[u8], tag: &str, res: &BTreeMap<&'static str, (u8, i64, String)>, budget: &mut usize, force: bool) {
+    // an input on which a modelled entry point panicked always goes to the model (reserve of 200 cases)
+    let panicked = res.iter().any(|(n, r)| r.0 == 2 && (MODELLED.contains(n) || n.starts_with("n1/") || n.starts_with("n2/")));
+    let force = force || panicked;
+    if panicked && *budget == 0 && b.len() <= 700 { unsafe { if PANIC_RESERVE > 0 { PANIC_RESERVE -= 1; *budget = 30; } } }
     if *budget == 0 || b.len() > 700 { return; }
     // one or two modelled views per input, chosen at random (all of them when `force`)
     let pick = rng.below(6);
@@ -432,13 +438,13 @@ fn main() {
         vec![0x82, 0x00, 0x9b, 0xff, 0xff, 0xff, 0xff, 0xff, 0xff, 0xff, 0xff], vec![0x7b, 0xff, 0xff, 0xff, 0xff, 0xff, 0xff, 0xff, 0xff]];
     for hdr in 0..=255u8 { for len in [0usize, 1, 27, 28, 29, 30, 55, 56, 57, 58] { let mut b = vec![hdr]; b.extend(std::iter::repeat(0x80 | (len as u8 & 0x7f)).take(len)); fixed.push(b); } }
     for k in 0..12 { fixed.push(vec![0xff; k]); fixed.push(vec![0x80 + k as u8; 9]); fixed.push(std::iter::repeat(0xffu8).take(k).chain([0x7f]).collect()); }
-    for b in &fixed { let res = run.all(b, "boundary"); inputs += 1; if budget > 0 && rng.below(8) == 0 { emit_model_cases(&mut rng, b, "boundary", &res, &mut budget, false); } }
+    for b in &fixed { let res = run.all(b, "boundary"); inputs += 1; let any_panic = res.values().any(|r| r.0 == 2); if any_panic || (budget > 0 && rng.below(8) == 0) { emit_model_cases(&mut rng, b, "boundary", &res, &mut budget, false); } }
     // 3. label sweeps
     for label in 0..=12u64 { for arity in 1..=4usize { for _ in 0..(if thorough { 12 } else { 3 }) {
         let mut xs = vec![Item::uint(label)]; for _ in 1..arity { xs.push(pool_item(&mut rng, 2)); }
         let it = if rng.below(5) == 0 { Item::new(Kind::Array(None, xs)) } else { Item::array(xs) };
         let b = it.to_vec(); let res = run.all(&b, "label-sweep"); inputs += 1;
-        if budget > 0 { emit_model_cases(&mut rng, &b, "label-sweep", &res, &mut budget, false); }
+        if budget > 0 || res.values().any(|r| r.0 == 2) { emit_model_cases(&mut rng, &b, "label-sweep", &res, &mut budget, false); }
     } } }
     // 4. random bytes
     for _ in 0..(if thorough { 20000 } else { 1500 }) {
@@ -446,7 +452,7 @@ fn main() {
         let mut b = rng.bytes(len);
         if !b.is_empty() && rng.bool() { b[0] = *rng.pick(&[0x82u8, 0x83, 0x84, 0x9f, 0xa1, 0xd8, 0x81, 0x85, 0x00, 0x61, 0x71, 0x41, 0xe1, 0xf1, 0x82, 0x82]); if b.len() > 1 && rng.bool() { b[1] = rng.below(12) as u8; } }
         let res = run.all(&b, "random"); inputs += 1;
-        if budget > 0 { emit_model_cases(&mut rng, &b, "random", &res, &mut budget, false); }
+        if budget > 0 || res.values().any(|r| r.0 == 2) { emit_model_cases(&mut rng, &b, "random", &res, &mut budget, false); }
     }
     // 5. mutations of the seeds
     let rounds = if thorough { 60 } else { 6 };
@@ -464,7 +470,7 @@ fn main() {
             for _ in 0..k { tags.push(cbor_tree::corrupt(&mut rng, &mut b, &other)); }
             tags.sort(); tags.dedup();
             let res = run.all(&b, &format!("{}+{}", name, tags.join("+"))); inputs += 1;
-            if budget > 0 { emit_model_cases(&mut rng, &b, &format!("mut-{}", tags.first().unwrap_or(&"none")), &res, &mut budget, false); }
+            if budget > 0 || res.values().any(|r| r.0 == 2) { emit_model_cases(&mut rng, &b, &format!("mut-{}", tags.first().unwrap_or(&"none")), &res, &mut budget, false); }
         }
     }
     // 6. nesting probe (separate process: a stack overflow cannot be caught)
